@@ -160,7 +160,15 @@ impl Serialize for MillerLoopResult {
 impl<'de> Deserialize<'de> for Gt {
     fn deserialize<D: Deserializer<'de>>(d: D) -> Result<Self, D::Error> {
         let fp12 = Fp12::deserialize(d)?;
-        Ok(Gt(fp12))
+        // Only elements of the order-r subgroup are target-group elements (zero is
+        // tested apart: the subgroup test compares Frobenius images).
+        let is_member = !bool::from(ff::Field::is_zero(&fp12))
+            && unsafe { blst::blst_fp12_in_group(&fp12.0) };
+        if is_member {
+            Ok(Gt(fp12))
+        } else {
+            Err(D::Error::custom(ERR_CODE))
+        }
     }
 }
 
